@@ -1,6 +1,7 @@
 """C04 - multiply / divide: dimension exponents add, base-unit magnitudes multiply
 (DESIGN.md section 4, C04). Random expression trees evaluated by barril and by the dimensional
 model in lock step, compared at every node."""
+import itertools
 import math
 from fractions import Fraction as Fr
 
@@ -250,6 +251,63 @@ def run(ctx):
                                         ctx.violation("integer-ndarray-operand:magnitude:%s" % sym, dict(case_, got=got, want=want, result=repr(res)[:160]), replay=case_)
                                 except Exception as e:
                                     ctx.violation("integer-ndarray-operand:raised:%s" % sym, dict(case_, error="%s: %s" % (type(e).__name__, str(e)[:160])), replay=case_)
+        # operands of different kinds meeting in one product: a numpy-backed amount with a list- or tuple-backed one that carries
+        # its unit at an exponent other than 1 (cm2, 1/min2); an application subclass of Scalar on the left of a plain Scalar
+        if ctx.shard == 0:
+            import numpy as np
+            from barril.units import Array as _Arr2, Scalar as _Sc2
+
+            class AppScalar(_Sc2):
+                pass
+
+            def bm(res):
+                vals_ = [res.GetValue()] if isinstance(res, _Sc2) else list(res.GetValues())
+                return [float(dims.basemag(T, float(x), dims.items_of(res.GetQuantity()))) for x in vals_]
+
+            kinds_ = (("list", list), ("tuple", tuple), ("nd", lambda z: np.array(z, dtype=float)))
+            for u, v, e in (("m", "cm", 2), ("m", "km", 3), ("s", "min", -2), ("kg", "g", 2), ("m", "cm", 1)):
+                fu, fv = T.aff[u].slope, T.aff[v].slope
+                for (ka, mka), (kb, mkb) in itertools.product(kinds_, kinds_):
+                    av, bv = [2.0, 3.0, 0.5], [4.0, 0.25, 8.0]
+
+                    def powered(arr, e_):
+                        acc = arr
+                        for _i in range(abs(e_) - 1):
+                            acc = acc * arr
+                        return acc if e_ > 0 else 1.0 / acc
+
+                    for sym, fn, ref in (("*", lambda p, q: p * q, lambda x, y: x * y), ("/", lambda p, q: p / q, lambda x, y: x / y)):
+                        for order in ("plain first", "powered first"):
+                            ctx.ev()
+                            case_ = {"op": sym, "order": order, "containers": [ka, kb], "units": [u, v], "exponent": e}
+                            ctx.nt(("mixed containers", sym, order, ka, kb, u, v, e))
+                            try:
+                                a_ = _Arr2(mka(av), u)
+                                b_ = powered(_Arr2(mkb(bv), v), e)
+                                A_ = [x * fu for x in av]
+                                B_ = [(y * fv) ** e for y in bv]
+                                res = fn(a_, b_) if order == "plain first" else fn(b_, a_)
+                                want = [ref(x, y) for x, y in zip(A_, B_)] if order == "plain first" else [ref(y, x) for x, y in zip(A_, B_)]
+                                got = bm(res)
+                                if len(got) != 3 or not all(abs(g - w) <= 1e-9 * abs(w) for g, w in zip(got, want)):
+                                    ctx.violation("mixed-containers:magnitude:%s" % sym, dict(case_, got=got, want=want, result=repr(res)[:160]), replay=case_)
+                            except Exception as ex:
+                                ctx.violation("mixed-containers:raised:%s" % sym, dict(case_, error="%s: %s" % (type(ex).__name__, str(ex)[:160])), replay=case_)
+            for u, v in (("m", "s"), ("m", "cm"), ("kg", "g")):
+                fu, fv = T.aff[u].slope, T.aff[v].slope
+                for sym, fn, ref in (("*", lambda p, q: p * q, lambda x, y: x * y), ("/", lambda p, q: p / q, lambda x, y: x / y), ("//", lambda p, q: p // q, None)):
+                    for left_cls, right_cls in ((AppScalar, _Sc2), (_Sc2, AppScalar), (AppScalar, AppScalar)):
+                        ctx.ev()
+                        case_ = {"op": sym, "classes": [left_cls.__name__, right_cls.__name__], "units": [u, v]}
+                        try:
+                            res = fn(left_cls(7.0, u), right_cls(2.0, v))
+                            plain = fn(_Sc2(7.0, u), _Sc2(2.0, v))
+                            if bm(res) != bm(plain) or res.GetQuantity() != plain.GetQuantity() or not isinstance(res, _Sc2):
+                                ctx.violation("subclass-operand:differs-from-the-plain-classes:%s" % sym, dict(case_, got=repr(res)[:120], plain=repr(plain)[:120]), replay=case_)
+                            if ref is not None and abs(bm(res)[0] - ref(7.0 * fu, 2.0 * fv)) > 1e-9 * abs(ref(7.0 * fu, 2.0 * fv)):
+                                ctx.violation("subclass-operand:magnitude:%s" % sym, dict(case_, got=bm(res), want=ref(7.0 * fu, 2.0 * fv)), replay=case_)
+                        except Exception as ex:
+                            ctx.violation("subclass-operand:raised:%s" % sym, dict(case_, error="%s: %s" % (type(ex).__name__, str(ex)[:160])), replay=case_)
         # Quantity ** n equals n-fold product
         for _ in range(200):
             spec = B.tree(r, 2, 1)
